@@ -19,8 +19,9 @@ import zipfile
 
 from run import Broken, Violation
 from props import c03_bound as B
+from props import c03_carrier as K
 
-GEN = ["Units", "UnitsBound", "PyUnits"]
+GEN = ["Units", "UnitsBound", "PyUnits", "UnitsCarrier"]
 RULE = ("type-directed random instances of the 17 *Content dataclasses (texts drawn from words x every Python "
         "whitespace / line-boundary character, heading styles, page breaks, anchors, arbitrary slide numbers) "
         "+ extraction results of every file under tests/resources + generated PPTX/EPUB zips, PPT record streams, "
@@ -36,7 +37,11 @@ RULE = ("type-directed random instances of the 17 *Content dataclasses (texts dr
         "mailbox-like byte strings, generated PDFs whose pages share content streams / resource dictionaries (inline, "
         "indirect, inherited from the page tree) / fonts / forms in every combination (all 2-page combinations on every run), "
         "RTF page text that looks like \\page, ODP / ODS / PPTX parts that share a name or a part, and twin pairs of every "
-        "document kind (same structure, other text) read one after the other in one process")
+        "document kind (same structure, other text) read one after the other in one process; + composed slides (c03_carrier): PPTX / ODP "
+        "decks whose slides hold several carriers of every kind (plain / placeholder / grouped text shapes of every placeholder role, "
+        "tables, SmartArt, charts, notes, comments; ODP frames of every presentation:class, list / span paragraphs, custom shapes, "
+        "annotations, notes), several paragraphs per carrier, the same kind twice on a slide, equal positions, related parts numbered "
+        "independently of the slides and reached through relationship ids that are local to each slide part (rId2 on every slide) or global")
 ASSUMPTIONS = [
     "CPython str.strip/split/splitlines/lower/join are modelled (whitespace and line-boundary sets regenerated "
     "from the running interpreter each run); strings with lone surrogates are outside the model (skipped, counted)",
@@ -55,6 +60,11 @@ ASSUMPTIONS = [
     "map parse . mboxSplit on the raw bytes (parse = the real message parser, run by the harness on the model's pieces), read_pdf "
     "as pdfUnits of the page texts extracted from each page in isolation (fresh pypdf reader per page)",
 ]
+ASSUMPTIONS.append(
+    "composed slides: which carrier kinds the library reads is decided on the running code (a one-slide, one-paragraph probe per carrier "
+    "shape); text of a kind the probe does not return (today: SmartArt, charts, notes, comments, footers, grouped ODP frames, custom shapes) "
+    "is only required not to appear in a foreign unit - its loss is C02's business; ODP: _extract_slide's paragraph loop is modelled "
+    "(odpClassify) on the paragraphs in frame order, the frame sort by (y, x) is re-stated by the harness")
 TRUSTED = ["model of str.strip/splitlines/split in S2T/Model/Units.lean (tied by this correspondence)",
            "harness-side re-statement of DocxContent's anchor indexing (6 lines) and heading_level (regex from source)",
            "oracle-side re-statement of the DOCX heading stack (docx_path_empty_flags) used only to tell the open finding docx.text-before-first-heading-dropped from other coverage losses"]
@@ -898,6 +908,7 @@ def correspondence(ctx):
     mism += _corr_rtf(ctx, broken)
     mism += B.corr_mbox_read(ctx, broken, s1)
     mism += B.corr_pdf(ctx, broken, diff, impl, ser)
+    mism += K.corr_odp(ctx, broken, s1, Broken)
     ctx.coverage["mismatches"] = mism
     # 4. the property oracle itself (independent of the model) on a small budget every run
     for v in _oracle(ctx, [], ctx.n(6, 60)):
@@ -1586,6 +1597,11 @@ def _oracle(ctx, seeds, budget):
         if "mbox_tok" in c:
             for key, what in B.mbox_tok_check(c["mbox_tok"]):
                 _viol(out, key, what, {"mbox_tok": B.shrink_mbox(c["mbox_tok"])})
+        if "carrier_doc" in c:
+            K.reset_support()
+            d = K.shrink(c["carrier_doc"])
+            for key, what in K.check(d):
+                _viol(out, key, what, {"carrier_doc": d})
     # fixtures
     for path, obj in fixtures():
         r = ser(obj)
@@ -1613,6 +1629,9 @@ def _oracle(ctx, seeds, budget):
             _viol(out, key, what, {"ppt_doc": {"list": lst, "cont": [], "raw": raw}})
     # real files
     for key, what, rep in e2e_checks(rng, budget):
+        _viol(out, key, what, rep)
+    # composed slides: every carrier kind, several paragraphs, several carriers, slide-local relationship ids
+    for key, what, rep in K.e2e(rng, budget * 4):
         _viol(out, key, what, rep)
     # written mailboxes (delimiter look-alike body lines) and PDFs whose pages share objects
     for key, what, rep in B.e2e(rng, budget):
@@ -1743,6 +1762,9 @@ def replay(ctx, payload):
         msgs = [w for _, w in B.pdf_check(rep["pdf"])]
     elif "mbox_tok" in rep:
         msgs = [w for _, w in B.mbox_tok_check(rep["mbox_tok"])]
+    elif "carrier_doc" in rep:
+        K.reset_support()
+        msgs = [w for _, w in K.check(rep["carrier_doc"])]
     elif "rtf_look" in rep or "dup" in rep:
         msgs = [w for _, w in B.single_check(rep)]
     elif "history" in rep:
